@@ -179,4 +179,36 @@ Lemma into_iter_fail a ctx fuel p r r1 : run a ctx p r = Some (None, r1) ->
   sdrive (S fuel) (IIntoIter a) ctx (SInto None) None [] [] p r = Some (None, r1).
 Proof. intros E. cbn [Sem.sdrive it_snext]. now rewrite E. Qed.
 
+
+(* i.then(j) used as an iterable: i's items first; when i ends j is made and asked (from where i ended, i's last emissions
+   kept); once j has started i is never asked again *)
+Lemma ithen_first i j ctx sa p r v p1 e1 sa' r1 :
+  it_snext toks spn run i ctx sa p r = Some (SSome v p1 e1, sa', r1) ->
+  it_snext toks spn run (IThen i j) ctx (SThen sa None) p r = Some (SSome v p1 e1, SThen sa' None, r1).
+Proof. intros H. cbn [it_snext]. now rewrite H. Qed.
+
+Lemma ithen_switch i j ctx sa p r p1 e1 sa' r1 :
+  it_snext toks spn run i ctx sa p r = Some (SNone p1 e1, sa', r1) ->
+  it_snext toks spn run (IThen i j) ctx (SThen sa None) p r =
+    match it_snext toks spn run j ctx (mk_iter j ctx) p1 r1 with
+    | Some (SSome v p2 e2, sb', r2) => Some (SSome v p2 (e1 ++ e2), SThen sa' (Some sb'), r2)
+    | Some (SNone p2 e2, sb', r2) => Some (SNone p2 (e1 ++ e2), SThen sa' (Some sb'), r2)
+    | Some (SErr, sb', r2) => Some (SErr, SThen sa' (Some sb'), r2)
+    | None => None
+    end.
+Proof. intros H. cbn [it_snext]. now rewrite H. Qed.
+
+Lemma ithen_second i j ctx sa sb p r :
+  it_snext toks spn run (IThen i j) ctx (SThen sa (Some sb)) p r =
+    match it_snext toks spn run j ctx sb p r with
+    | Some (x, sb', r') => Some (x, SThen sa (Some sb'), r')
+    | None => None
+    end.
+Proof. reflexivity. Qed.
+
+Lemma ithen_fails_with_first i j ctx sa p r sa' r1 :
+  it_snext toks spn run i ctx sa p r = Some (SErr, sa', r1) ->
+  it_snext toks spn run (IThen i j) ctx (SThen sa None) p r = Some (SErr, SThen sa' None, r1).
+Proof. intros H. cbn [it_snext]. now rewrite H. Qed.
+
 End Iter.
